@@ -187,6 +187,7 @@ impl Property for C04 {
             sim.step(&Step::Restart);
         }
         // the switch
+        sim.w.record_tip_moves = true;
         sim.main = 1;
         let b_tip = sim.w.chains[1].tip();
         let store_before = sim.w.store_digest();
@@ -245,7 +246,15 @@ impl Property for C04 {
                         obs.label(format!("ended-by-ban:{}", f.signature));
                         return Ok(());
                     }
-                    let sig = if long_fork { format!("long-fork/banned-before-abort/{}", f.signature) } else { format!("after-switch/{}", f.signature) };
+                    let mut sig = if long_fork { format!("long-fork/banned-before-abort/{}", f.signature) } else { format!("after-switch/{}", f.signature) };
+                    if f.signature.contains("BlockFilterHashesIsUnexpected") {
+                        // did it happen in the window in which the peer already serves the new branch but the client has not
+                        // processed its proof yet (known finding D22c), or afterwards?
+                        let ban_at = sim.w.shared.ban_events.lock().unwrap().first().cloned().unwrap_or(u64::MAX);
+                        let bch = &sim.w.chains[1];
+                        let moved_to_b_at = sim.w.tip_moves.iter().find(|(_, h)| bch.number_of(h).map(|n| n > fork_point).unwrap_or(false)).map(|(e, _)| *e).unwrap_or(u64::MAX);
+                        sig.push_str(if ban_at > moved_to_b_at { "/after-the-new-branch-was-proven" } else { "/while-the-client-was-still-on-the-old-branch" });
+                    }
                     return tolerate(obs, Failure::new(sig, f.message));
                 }
                 if long_fork {
